@@ -38,6 +38,33 @@ func lexRender(src string) (out string, err error) {
 	return eng.Render("t", ctx)
 }
 
+func c13RenderCompiled(src string) (out string, err error) {
+	defer func() {
+		if r := recover(); r != nil {
+			err = fmt.Errorf("PANIC: %v", r)
+		}
+	}()
+	a := lexEngine()
+	if err = a.RegisterString("t", src); err != nil {
+		return "", err
+	}
+	ct, err := a.CompileTemplate("t")
+	if err != nil {
+		return "", err
+	}
+	data, err := twig.SerializeCompiledTemplate(ct)
+	if err != nil {
+		return "", err
+	}
+	b := lexEngine()
+	if err = b.LoadFromCompiledData(data); err != nil {
+		return "", err
+	}
+	ctx := lexCtx()
+	ctx["items"] = []interface{}{1, 2}
+	return b.Render("t", ctx)
+}
+
 // C13: a template with dashes against its dash-free, hand-trimmed counterpart (computed by the
 // verified strip_dashes): same output, same parse verdict; token streams against the model.
 func runC13(cases string, res *Result) {
@@ -69,6 +96,12 @@ func runC13(cases string, res *Result) {
 			res.add(Finding{Kind: "oracle", Where: "render", Case: c, Expected: hx(o2), Observed: hx(o1),
 				Detail: "output with dashes differs from the output of the same template with the dashes removed and the whitespace deleted by hand"})
 		default:
+			// the dashed template through its compiled form (compile, serialise, load on another engine): the same output
+			if o4, e4 := c13RenderCompiled(src); e4 != nil || o4 != o2 {
+				res.add(Finding{Kind: "oracle", Where: "render-compiled", Case: c, Expected: hx(o2), Observed: hx(o4) + fmt.Sprintf(" (err=%v)", e4),
+					Detail: "the dashed template rendered from its compiled form differs from the hand-trimmed one"})
+			}
+			res.Evaluations++
 			// the same template beyond the size at which the engine switches tokenizers (a comment adds nothing)
 			o3, e3 := lexRender(src + c13Pad)
 			res.Evaluations++
